@@ -484,16 +484,26 @@ def match_literal(t, lit, b=None, facts=None):
             return (t.t, t.f) if lit["truth"] else (t.f, t.t)
         return None
     if lit["kind"] == "cmp":
+        b_body = b
         op, a, b = lit["op"], lit["a"], lit["b"]
         cands = []
         if c.kind == "cmp":
             cands.append((c.op, c.a, c.b))
         elif c.kind == "call" and c.name in ("lt", "le", "gt", "ge", "eq", "ne") and len(c.args) == 2:
             cands.append(({"lt": "Lt", "le": "Le", "gt": "Gt", "ge": "Ge", "eq": "Eq", "ne": "Ne"}[c.name], c.args[0], c.args[1]))
+        body_ = b_body
         for cop, ca, cb in cands:
             for (o2, x, y) in ((cop, ca, cb), (tests.FLIP[cop], cb, ca)):
                 if o2 == op and _match_arg(x, a) and _match_arg(y, b):
                     return (t.t, t.f) if lit["truth"] else (t.f, t.t)
+                # for an unsigned x: `x > 0`, `x != 0` and `x >= 1` are one predicate
+                if op == "Gt" and b == 0 and isinstance(a, str) and a.startswith("p") and body_ is not None and str(body_.local_ty(int(a[1:]))).lstrip("&").startswith("u"):
+                    same = (o2 == "Ne" and _match_arg(x, a) and _match_arg(y, 0)) or (o2 == "Ge" and _match_arg(x, a) and _match_arg(y, 1))
+                    opposite = (o2 == "Eq" and _match_arg(x, a) and _match_arg(y, 0)) or (o2 == "Lt" and _match_arg(x, a) and _match_arg(y, 1))
+                    if same:
+                        return (t.t, t.f) if lit["truth"] else (t.f, t.t)
+                    if opposite:
+                        return (t.f, t.t) if lit["truth"] else (t.t, t.f)
                 if tests.NEG[o2] == op and _match_arg(x, a) and _match_arg(y, b):
                     # test decides the negation
                     return (t.f, t.t) if lit["truth"] else (t.t, t.f)
@@ -655,6 +665,40 @@ def radix_summary(facts, b, memo, stack=()):
                 lo, lo_edge = bound, (t.bb, hold)
             else:
                 hi, hi_edge = bound, (t.bb, hold)
+    # the same range test written `(2..=N).contains(&radix)`
+    for t in tl:
+        c = t.cond
+        if c is None or c.kind != "call" or c.name != "contains" or len(c.term["args"]) != 2 or t.t is None or t.f is None:
+            continue
+        if not only_from_param(atoms.of_operand(c.term["args"][1]), p):
+            continue
+        if fate(b, t.f) != "panic" or _debug_only_panic(b, t.f):
+            continue
+        # the range: RangeInclusive::new(lo, hi) behind a reference
+        l_ = core.op_local(c.term["args"][0])
+        bounds = None
+        for _ in range(6):
+            ds_ = b.defs().get(l_, []) if l_ is not None else []
+            if len(ds_) != 1:
+                break
+            d_ = ds_[0]
+            if d_[0] == "call" and callee_name(d_[2]) == "new" and "RangeInclusive" in (callee(d_[2]) or "") and len(d_[2]["args"]) == 2:
+                k0, k1 = core.op_const(d_[2]["args"][0]) if d_[2]["args"][0]["k"] == "const" else None, core.op_const(d_[2]["args"][1]) if d_[2]["args"][1]["k"] == "const" else None
+                if isinstance(k0, int) and isinstance(k1, int):
+                    bounds = (k0, k1)
+                break
+            if d_[0] == "assign" and d_[3]["rv"]["k"] in ("ref", "use", "copyforderef"):
+                pl_ = d_[3]["rv"].get("place") or core.op_place(d_[3]["rv"].get("op"))
+                l_ = pl_["local"] if pl_ else None
+                continue
+            break
+        if bounds is not None:
+            lo, hi = bounds
+            lo_edge = hi_edge = (t.bb, t.t)
+        elif all(b.edge_dominates((t.bb, t.t), r) for r in rets):
+            # a release-mode range guard on the radix whose bounds sit in a promoted constant the driver does not read
+            memo[b.path] = ("range guard with unread bounds",)
+            return memo[b.path]
     if lo is not None and hi is not None:
         if all(b.edge_dominates(lo_edge, r) and b.edge_dominates(hi_edge, r) for r in rets):
             memo[b.path] = (lo, hi)
@@ -685,7 +729,10 @@ def radix_summary(facts, b, memo, stack=()):
         if s is None:
             continue
         fw.append(i)
-        summ = s if summ is None else (max(summ[0], s[0]), min(summ[1], s[1]))
+        if len(s) == 1 or (summ is not None and len(summ) == 1):
+            summ = s if len(s) == 1 else summ
+        else:
+            summ = s if summ is None else (max(summ[0], s[0]), min(summ[1], s[1]))
     if fw:
         r = b.reachable(0, without_blocks=fw + residual)
         if not any(x in r for x in rets):
@@ -715,6 +762,9 @@ def check_radix(ctx, res, config="all"):
         key = b.path
         if s == (2, role):
             res.ok("R3a-radix", key, {"range": [2, role], "config": config})
+        elif s is not None and len(s) == 1:
+            res.note("R3a-radix: %s: the radix is guarded by `(lo..=hi).contains(&radix)` with a release-mode panic, but the bounds are a promoted constant the facts do not carry - the range is not decided [config %s]" % (key, config))
+            res.ok("R3a-radix", key, {"range": "undecided (contains)", "config": config}, nontrivial=False)
         else:
             res.fail(
                 Finding(
@@ -948,6 +998,8 @@ def explicit_panic_sites(facts):
             if kind is None:
                 kind = callee_name(t)
             msgs = core.panic_message(b, i)
+            if kind == "unwrap":
+                msgs = []  # `.unwrap()` has no message of its own; a string constant nearby belongs to a neighbouring `expect`
             out.append({"body": b.path, "kind": kind, "msg": msgs[0] if msgs else "", "debug": (i in live and i not in rel), "live": i in live, "line": t["span"]["line"], "bb": i})
     return out
 
